@@ -1,6 +1,7 @@
 package syncx
 
 import (
+	"context"
 	"fmt"
 	"strings"
 	"sync"
@@ -10,6 +11,8 @@ import (
 	"go.sia.tech/core/gateway"
 	"go.sia.tech/core/types"
 	"go.sia.tech/coreutils"
+	"go.sia.tech/coreutils/chain"
+	"go.sia.tech/coreutils/syncer"
 	"verifharness/hx"
 )
 
@@ -50,6 +53,7 @@ type ByzScenario struct {
 	DeadlineMs int     `json:"deadlineMs"`
 	Announce   string  `json:"announce"`
 	QuietP     bool    `json:"quietP"`
+	Retrieve   bool    `json:"retrieve"` // instant sync: the victim bootstraps with syncer.RetrieveCheckpoint from the Byzantine peer(s)
 }
 
 type ByzOutcome struct {
@@ -281,6 +285,10 @@ func RunByz(sc ByzScenario, slot int) (out *ByzOutcome) {
 			z.Close()
 		}
 	}()
+	if sc.Retrieve {
+		runRetrieve(sc, w, zs, htip, out, lg, fail)
+		return
+	}
 
 	// honest nodes
 	nh := sc.Honest
@@ -581,7 +589,7 @@ func RunByz(sc ByzScenario, slot int) (out *ByzOutcome) {
 						fail(false, "byz:work-decreased", "node %s moved from %s to the lighter tip %s", n.Opts.Name, prev, ev.Tip)
 					}
 					if c := w.ClassOf(ev.Tip); c != "ok" {
-						fail(false, "byz:adopted-invalid", "node %s adopted the %s block %s", n.Opts.Name, c, ev.Tip)
+						fail(false, "byz:adopted-invalid:"+strings.Join(kinds, "+"), "node %s adopted the %s block %s", n.Opts.Name, c, ev.Tip)
 					}
 					prev = ev.Tip
 				}
@@ -594,7 +602,7 @@ func RunByz(sc ByzScenario, slot int) (out *ByzOutcome) {
 			fail(false, "byz:not-banned:"+zKind(sc.Z[i]), "Byzantine peer %s delivered %v but no PeerStore.Ban was recorded", z.Name, out.Fired)
 		}
 	}
-	out.Events = append(out.Events, Event{Op: "Tree", Tree: w.TreeJSON(), Req: int(sc.Require), Why: sc.ID})
+	out.Events = append(out.Events, Event{Op: "Tree", Tree: w.TreeJSON(), Req: int(sc.Require), Why: sc.ID, Kind: strings.Join(kinds, "+")})
 	for i, n := range nodes {
 		out.Events = append(out.Events, Event{Op: "Node", Node: n.Opts.Name, Known: initKnown[i], Tip: initTips[i], Base: "g"})
 		evs := n.Rec.Events()
@@ -631,4 +639,74 @@ func zKind(z ZSpec) string {
 		return "honestlike"
 	}
 	return strings.Join(parts, ",")
+}
+
+// runRetrieve: instant sync.  The victim asks the Byzantine peer(s) for the checkpoint at a trusted
+// index with syncer.RetrieveCheckpoint; whatever comes back without an error must be the genuine
+// (parent state, block) pair -- it is what NewDBStoreAtCheckpoint will apply WITHOUT validation.
+// A genuine answer is then used to bootstrap a real node, which must verify against the twin.
+func runRetrieve(sc ByzScenario, w *World, zs []*ScriptedPeer, htip string, out *ByzOutcome, lg *tlog, fail func(bool, string, string, ...any)) {
+	var addrs []string
+	for _, z := range zs {
+		addr, err := z.Listen()
+		if err != nil {
+			fail(false, "infra:listen", "%v", err)
+			return
+		}
+		addrs = append(addrs, addr)
+	}
+	// the trusted index: three blocks below the honest tip (a v2 block)
+	chainBlocks := w.ChainOf(htip)
+	cb := chainBlocks[len(chainBlocks)-4]
+	name := w.Name(cb.ID())
+	index := types.ChainIndex{Height: w.HeightOf(name), ID: cb.ID()}
+	want, _ := w.StateOf(cb.ParentID)
+	ctx, cancel := context.WithTimeout(context.Background(), 6*time.Second)
+	defer cancel()
+	cs, b, err := syncer.RetrieveCheckpoint(ctx, addrs, index, w.Net, w.Genesis.ID())
+	var kinds []string
+	for i, z := range zs {
+		out.Served[z.Name] = z.Served()
+		for _, sv := range z.Served() {
+			if sv.Kind != "" {
+				out.Fired[sv.Kind]++
+			}
+		}
+		kinds = append(kinds, zKind(sc.Z[i]))
+	}
+	label := strings.Join(kinds, "+")
+	if err != nil {
+		lg.add("RetrieveCheckpoint(%s): rejected: %v", name, err)
+		out.Reached = true // nothing was adopted; the caller would try other peers
+		return
+	}
+	lg.add("RetrieveCheckpoint(%s): accepted", name)
+	if contentHash(b) != contentHash(cb) {
+		fail(false, "byz:checkpoint-accepted:block:"+label, "RetrieveCheckpoint returned a block with the id of %s but different content (%d miner payouts, first value %v; genuine: %d, %v)",
+			name, len(b.MinerPayouts), firstPayout(b), len(cb.MinerPayouts), firstPayout(cb))
+		return
+	}
+	if StateHash(cs) != StateHash(want) || cs.Index != want.Index {
+		fail(false, "byz:checkpoint-accepted:state:"+label, "RetrieveCheckpoint returned a state that is not the parent state of %s", name)
+		return
+	}
+	// genuine: bootstrap a node from it and compare with the linear twin
+	store, tipState, err := chain.NewDBStoreAtCheckpoint(chain.NewMemDB(), cs, b, nil)
+	if err != nil {
+		fail(false, "byz:checkpoint-bootstrap:"+label, "NewDBStoreAtCheckpoint: %v", err)
+		return
+	}
+	cm := chain.NewManager(store, tipState)
+	if got, ok := w.StateOf(cb.ID()); !ok || StateHash(got) != StateHash(cm.TipState()) {
+		fail(false, "byz:checkpoint-bootstrap:"+label, "state after the checkpoint block differs from the linear twin's")
+		return
+	}
+	out.Reached = true
+}
+
+func firstPayout(b types.Block) any {
+	if len(b.MinerPayouts) == 0 {
+		return "none"
+	}
+	return b.MinerPayouts[0].Value
 }
